@@ -169,7 +169,7 @@ Proof.
     - destruct Hin as [E | []]. inversion E. auto.
     - destruct Hin as [E | [E | []]]; inversion E. auto. }
   destruct Hid as (-> & ->). repeat split; auto.
-  - left. repeat split; auto.
+  - left. repeat split; auto. rewrite (appended_ext _ _ _ En).
     destruct Hnew as [-> | (Hc & b & ->)]; [left; reflexivity | right; split; auto; exists b; reflexivity].
   - apply core_refuse.
   - eapply hooks_same; [exact En|]. destruct Hnew as [-> | (_ & b & ->)]; reflexivity.
